@@ -125,7 +125,24 @@ class SharedState(object):
                     snap[(label, k)] = ('big', v, fingerprint(v))
         return snap
 
+    def _memoised(self):
+        """functools caches on athlib functions and methods: not reachable as data, emptied on every restore (an empty cache is a state
+        every caller can be in)"""
+        m = getattr(self, '_memo_fns', None)
+        if m is None:
+            m = []
+            for label, kind, h in self.holders():
+                if kind in ('module', 'class'):
+                    for k, v in list(vars(h).items()):
+                        f = getattr(v, '__func__', v)
+                        if callable(getattr(f, 'cache_clear', None)):
+                            m.append(f)
+            self._memo_fns = m
+        return m
+
     def restore(self, snap):
+        for f in self._memoised():
+            f.cache_clear()
         by_label = getattr(self, '_by_label', None)
         if by_label is None or by_label[0] is not snap:
             bl = {}
